@@ -106,8 +106,11 @@ def main():
     if not repo_mode:
         baseline(sorted({p for _, props in jobs for p in props}))
     if repo_mode:
+        import glob
         for sid, props in jobs:
             s, r = one(sid, props, True)
+            for d in glob.glob(os.path.join(tempfile.gettempdir(), "vreplay_*")):
+                shutil.rmtree(d, ignore_errors=True)     # replay files of --no-evidence runs
             results[s] = r
             print(s, {p: v["exit"] for p, v in r.items()} if "error" not in r else r, flush=True)
     else:
